@@ -108,6 +108,9 @@ def check_tree_obj(ctx, T, case, origin):
     if X.has_nonfinite(T):
         ctx.count("excluded_nonfinite")
         return True
+    if E.has_huge_constant(T):
+        ctx.count("excluded_huge_constant")
+        return True
     ctx.count("roundtrips")
     if A.needs_grouping(T):
         ctx.nontriv(A.sig(T))
